@@ -89,6 +89,35 @@ def check(ctx, node, assigns, replay):
             return True
         ctx.violation(f"C11:before-raised-{type(e).__name__}", f"solving the hierarchy before flatten raised {type(e).__name__}: {str(e)[:70]}", replay)
         return False
+    # sometimes a placed sub-solver is flattened in place first (its own pin table is re-ordered by that); the parent must
+    # still see the same block, before and after its own flatten()
+    import random as _random
+    rr = _random.Random(repr(replay.get("node", replay))[:2000])
+    if rr.random() < 0.4:
+        nested = []
+
+        def walk(sv, seen):
+            for st in sv.structures:
+                if st.solver is not None and id(st.solver) not in seen:
+                    seen.add(id(st.solver))
+                    if any(x.solver is not None for x in st.solver.structures):
+                        nested.append(st.solver)
+                    walk(st.solver, seen)
+        walk(top, set())
+        if nested:
+            try:
+                for sv in [x for x in nested if rr.random() < 0.6] or nested[:1]:
+                    sv.flatten()
+                ctx.tag("sub-solver-flattened-first")
+                for i, p in enumerate(assigns):
+                    T = impl.solved_matrix(top.solve(**p), names)[0]
+                    if T.size and float(np.max(np.abs(T - before[i]))) > 1e-9:
+                        ctx.violation("C11:matrix-changed-by-inner-flatten", "flattening a placed sub-solver in place changed what the parent computes", replay)
+                        return False
+            except Exception as e:  # noqa
+                if impl.outcome_class(e) != "singular":
+                    ctx.violation(f"C11:inner-flatten-raised-{type(e).__name__}", f"flattening a placed sub-solver / solving the parent raised {type(e).__name__}: {str(e)[:70]}", replay)
+                    return False
     try:
         top.flatten()
     except Exception as e:  # noqa
